@@ -9,6 +9,7 @@
    in a writer monad; the raw [fdiv]/[fsqrt] fields are used nowhere else in this
    file.  Definitions only.  Release semantics (debug_assert inactive). *)
 From V Require Export Base.Prelude Base.KFloat.
+From V Require Import Gen.ConstKalman.
 Close Scope float_scope.
 Open Scope Z_scope.
 
@@ -52,11 +53,15 @@ Definition ts_add (t d : Z) : Z := wrap 64 (t + d).
 Definition is_before (a b : Z) : bool := ts_sub a b <? 0.
 Definition dur_add (a b : Z) : Z := sat_i64 (a + b).
 Definition dur_sub (a b : Z) : Z := sat_i64 (a - b).
-Definition dur_abs (a : Z) : Z := to_signed 64 (Z.abs a).      (* i64::abs, wrapping on MIN (release) *)
+(* NtpDuration::abs: i64::abs wrapping on MIN (release), or saturating_abs after the C32 repair *)
+Definition dur_abs (a : Z) : Z :=
+  if TT_ABS_SATURATES =? 1 then Z.min i64_max (Z.abs a) else to_signed 64 (Z.abs a).
 
 (* PollInterval (i8) *)
-Definition poll_inc (x lim_max : Z) : Z := Z.min (to_signed 8 (x + 1)) lim_max.
-Definition poll_dec (x lim_min : Z) : Z := Z.max (to_signed 8 (x - 1)) lim_min.
+Definition poll_inc (x lim_max : Z) : Z :=
+  Z.min (if TT_POLL_INC_SATURATES =? 1 then Z.min 127 (x + 1) else to_signed 8 (x + 1)) lim_max.
+Definition poll_dec (x lim_min : Z) : Z :=
+  Z.max (if TT_POLL_DEC_SATURATES =? 1 then Z.max (-128) (x - 1) else to_signed 8 (x - 1)) lim_min.
 Definition poll_as_duration (x : Z) : Z :=
   let base := Z.min 127 (x + 32) in
   let shift := if base <? 0 then 0 else if 62 <? base then 62 else base in
